@@ -50,13 +50,25 @@ function repr(v) {
 
 const KINDS = ['AggregateError', 'TypeError', 'RangeError', 'ReferenceError', 'SyntaxError', 'EvalError', 'URIError', 'Error'];
 
-function makeContext(prints) {
+function makeContext(prints, withRealmApi) {
   const sandbox = {};
   const ctx = vm.createContext(sandbox, { microtaskMode: 'afterEvaluate' });
   // print is created inside the context so that its realm is the context's realm
   const mk = vm.runInContext(`(function(push){ return function print(){ var a=[]; for (var i=0;i<arguments.length;i++){ var x=arguments[i]; a.push(typeof x==='symbol' ? 'Symbol()' : String(x)); } push(a); }; })`, ctx);
   const print = mk((a) => { prints.push(a.map(esc).join(' ')); });
   Object.defineProperty(sandbox, 'print', { value: print, writable: true, enumerable: false, configurable: true });
+  if (withRealmApi) {
+    // newRealm(): returns a function evaluating source text in a fresh context (test262 $262.createRealm().evalScript)
+    const mkRealm = vm.runInContext(`(function(host){ return function newRealm(){ var ev = host(); return function evalInRealm(src){ return ev(String(src)); }; }; })`, ctx);
+    const newRealm = mkRealm(() => {
+      const sb2 = {};
+      const c2 = vm.createContext(sb2, { microtaskMode: 'afterEvaluate' });
+      const mk2 = vm.runInContext(`(function(push){ return function print(){ var a=[]; for (var i=0;i<arguments.length;i++){ var x=arguments[i]; a.push(typeof x==='symbol' ? 'Symbol()' : String(x)); } push(a); }; })`, c2);
+      Object.defineProperty(sb2, 'print', { value: mk2((a) => { prints.push(a.map(esc).join(' ')); }), writable: true, enumerable: false, configurable: true });
+      return (src) => vm.runInContext(src, c2, { timeout: 3000 });
+    });
+    Object.defineProperty(sandbox, 'newRealm', { value: newRealm, writable: true, enumerable: false, configurable: true });
+  }
   const protos = vm.runInContext(`[${KINDS.map(k => k + '.prototype').join(',')}]`, ctx);
   // remove node-specific globals that boa does not have, to keep `typeof x` probes aligned
   return { ctx, protos };
@@ -83,7 +95,7 @@ function throwClass(e, protos) {
 
 function runScript(req) {
   const prints = [];
-  const { ctx, protos } = makeContext(prints);
+  const { ctx, protos } = makeContext(prints, !!req.realm_api);
   let script;
   try {
     script = new vm.Script(req.src, { filename: 'case.js' });
